@@ -98,7 +98,7 @@ func runC12(c *Ctx) error {
 			Class: "max-elapsed-not-reached"})
 	}
 	// random configurations
-	nr := c.Pick(40, 600)
+	nr := c.Pick(40, 3000)
 	for i := 0; i < nr; i++ {
 		mr := 1 + c.Rng.Intn(8)
 		tm := timing{time.Duration(c.Rng.Intn(4)) * ms, time.Duration(c.Rng.Intn(12)) * ms, 1 + c.Rng.Intn(3), 1, c.Rng.Intn(3), 2}
